@@ -363,6 +363,10 @@ impl RefParser {
                         3 if p[1] == 5 => Color::Indexed(byte(p[2])?),
                         5 if p[1] == 2 => Color::rgb(byte(p[2])?, byte(p[3])?, byte(p[4])?),
                         6 if p[1] == 2 => Color::rgb(byte(p[3])?, byte(p[4])?, byte(p[5])?),
+                        // a selector that is neither 2 nor 5 (261, 514, 0 ...) makes this no colour
+                        // form at all: an unknown parameter, skipped like any other
+                        _ if p[1] != 2 && p[1] != 5 => continue,
+                        // selector 2 / 5 with the wrong number of components: not specified
                         _ => return None,
                     };
                     out.push(if fg { SetForegroundColor(color) } else { SetBackgroundColor(color) });
